@@ -1273,3 +1273,8 @@ benign("disk_fs_modes_from_flag", ["C12", "C02", "C16", "C01"], "src/fs/fs_disk.
 mut("revert_D16", ["C09", "C10"], "GRD-22", patch="revert_D16_flush_level_during_compaction.diff", note="a flush inside a table compaction may be placed at the compaction's output level")
 mut("parent_inputs_from_the_hull_range", ["C10", "C09"], "PAIR-14", patch="parent_inputs_from_the_hull_range.diff")
 mut("grown_inputs_adopted_without_parents", ["C10", "C09"], "PAIR-14", patch="grown_inputs_adopted_without_parents.diff")
+
+# ---- PAIR-15 / ORD-3c
+mut("seek_charge_applied_to_fresh_version", ["C07", "C01"], "PAIR-15", patch="seek_charge_applied_to_fresh_version.diff")
+mut("shutdown_shortened_merge_installed", ["C07", "C01"], "ORD-3c", patch="shutdown_shortened_merge_installed.diff",
+    note="a merge loop stopped by shutdown before any output was opened is installed: all inputs are deleted")
